@@ -281,6 +281,59 @@ fn frames(st: &mut Stats) {
     }
 }
 
+// ---- response structs encoded directly (fields the authenticator never produces, e.g. a certificate)
+
+fn direct_encodings(st: &mut Stats) {
+    for cert_len in [0usize, 1, 32, 300] {
+        for h_len in [0usize, 1, 64, 255] {
+            for sig_len in [0usize, 64, 70, 72] {
+                let case = json!({"direct_register_response": {"cert_len": cert_len, "handle_len": h_len, "sig_len": sig_len}});
+                st.case(&case.to_string(), true, "direct:register-response");
+                let (x, y) = (core::array::from_fn::<u8, 32, _>(|i| i as u8 + 1), core::array::from_fn::<u8, 32, _>(|i| 0xF0 ^ i as u8));
+                let cert: Vec<u8> = (0..cert_len).map(|i| 0x30 ^ i as u8).collect();
+                let kh = handle(h_len, 0x51);
+                let sig: Vec<u8> = (0..sig_len).map(|i| 0xC0 ^ i as u8).collect();
+                let r = par::catch(|| u2f::RegisterResponse { public_key: u2f::PublicKey { x, y }, key_handle: kh.clone(), attestation_certificate: cert.clone(), signature: sig.clone() }.encode());
+                match r {
+                    Err(p) => st.finding(Finding::new("kind=panic-in-encode", p, case)),
+                    Ok(enc) => {
+                        let mut want = vec![0x05, 0x04];
+                        want.extend(x);
+                        want.extend(y);
+                        want.push(h_len as u8);
+                        want.extend(&kh);
+                        want.extend(&cert);
+                        want.extend(&sig);
+                        want.extend([0x90, 0x00]);
+                        if enc != want {
+                            st.finding(Finding::new("kind=register-encoding", format!("RegisterResponse with a {cert_len}-byte certificate is not encoded as 05 || public key || L || key handle || certificate || signature || 9000"), case));
+                        }
+                    }
+                }
+            }
+        }
+    }
+    for counter in [0u32, 1, 0x0102_0304, u32::MAX] {
+        for presence in [0u8, 1] {
+            for sig_len in [0usize, 8, 72] {
+                let case = json!({"direct_authentication_response": {"counter": counter, "presence": presence, "sig_len": sig_len}});
+                st.case(&case.to_string(), true, "direct:authentication-response");
+                let sig: Vec<u8> = (0..sig_len).map(|i| 0xA0 ^ i as u8).collect();
+                let r = par::catch(|| u2f::AuthenticationResponse { user_presence: Flags::from_bits_truncate(presence), counter, signature: sig.clone() }.encode());
+                let mut want = vec![presence];
+                want.extend(counter.to_be_bytes());
+                want.extend(&sig);
+                want.extend([0x90, 0x00]);
+                match r {
+                    Err(p) => st.finding(Finding::new("kind=panic-in-encode", p, case)),
+                    Ok(enc) if enc != want => st.finding(Finding::new("kind=authenticate-encoding", "AuthenticationResponse is not encoded as presence || counter(BE) || signature || 9000".to_string(), case)),
+                    Ok(_) => {}
+                }
+            }
+        }
+    }
+}
+
 // ---- sequences
 
 #[derive(Clone, Debug, PartialEq, Serialize, Deserialize)]
@@ -442,6 +495,7 @@ pub fn run(ctx: &Ctx) -> Result<Run, String> {
         stats.samples.push(serde_json::to_value(c).unwrap());
     }
     frames(&mut stats);
+    direct_encodings(&mut stats);
     let depth = ctx.tier.pick(3, 4);
     let mut states = 0;
     let mut transitions = 0;
@@ -454,7 +508,7 @@ pub fn run(ctx: &Ctx) -> Result<Run, String> {
     let n = cs.len() as u64;
     let mut run = Run::from_stats(
         "model_checking",
-        "single register+authenticate+unknown-handle runs for every key-handle length 0..255 and the product challenge/application patterns(4x4, incl. equal) x counter {0,1,2^31,2^32-1} x presence x {RefStore, Arc<Mutex<MemoryStore>>}; every well-formed extended-length request frame (register, authenticate with P1 in {3,7,8} and every handle length, version; with and without trailing Le) parsed back; BFS over sequences of register(h in 2, app in 2) / authenticate(h in 2 + unknown, app in 2) on both stores. Signatures are verified with p256 over the byte strings of the U2F raw-message specification; raw encodings are parsed by the harness",
+        "single register+authenticate+unknown-handle runs for every key-handle length 0..255 and the product challenge/application patterns(4x4, incl. equal) x counter {0,1,2^31,2^32-1} x presence x {RefStore, Arc<Mutex<MemoryStore>>}; response structs with certificate/handle/signature lengths the authenticator itself never produces encoded directly; every well-formed extended-length request frame (register, authenticate with P1 in {3,7,8} and every handle length, version; with and without trailing Le) parsed back; BFS over sequences of register(h in 2, app in 2) / authenticate(h in 2 + unknown, app in 2) on both stores. Signatures are verified with p256 over the byte strings of the U2F raw-message specification; raw encodings are parsed by the harness",
         true,
         stats,
     );
@@ -470,6 +524,11 @@ pub fn replay(_ctx: &Ctx, case: &Value) -> Result<Vec<Finding>, String> {
         let hist: Vec<Act> = serde_json::from_value(case["hist"].clone()).map_err(|e| e.to_string())?;
         let (fs, _, _) = seq_run(case["memory"].as_bool().unwrap_or(false), &hist);
         return Ok(fs.into_iter().map(|(k, d)| Finding::new(format!("kind={k}"), d, case.clone())).collect());
+    }
+    if case.get("direct_register_response").is_some() || case.get("direct_authentication_response").is_some() {
+        let mut st = Stats::new();
+        direct_encodings(&mut st);
+        return Ok(st.findings.into_values().map(|x| x.0).filter(|f| f.case == *case).collect());
     }
     if case.get("frame").is_some() || case.get("version").is_some() {
         let mut st = Stats::new();
